@@ -30,10 +30,12 @@ def faults_for(kind, auto=False):
     if kind in ('cpa', 'dpa', 'part', 'mia', 'tplb', 'tplm', 'tpld'):
         f.append(F('trace_len', INITED))
         f.append(F('traces_ndim', ANY))               # traces that are not a (traces, samples) matrix: 3-D or 1-D
+    if kind in ('cpa', 'dpa', 'part', 'mia'):
+        f.append(F('traces_not_numeric', ANY))        # an array of strings where samples are expected: the conversion to the precision fails
     if kind in ('cpa', 'dpa', 'part', 'mia', 'tpld'):
         f.append(F('word_count', INITED))
     if kind == 'dpa':
-        f += [F('dpa_nonbinary', FIRST), F('dpa_float_data', FIRST)]
+        f += [F('dpa_nonbinary', FIRST), F('dpa_float_data', FIRST), F('dpa_wide_int_data', ANY)]      # 0/1 selectors carried by int64 / int8 / bool: refused by the in-place add into the unsigned counters
     if kind in ('part', 'mia', 'tplb'):
         f.append(F('class_float_data', ANY))          # refused by the class lookup inside _update, also as very first call (after _initialize)
     if kind in ('part', 'mia'):
@@ -69,10 +71,14 @@ def inject(ad, fault, rows, pos):
         d2 = d.copy()
         d2.flat[0] = 2
         args = (t, d2)
+    elif name == 'dpa_wide_int_data':
+        args = (t, d.astype(['int64', 'int8', 'bool'][pos % 3]))
     elif name == 'dpa_float_data':
         args = (t, d.astype('float64'))
     elif name == 'class_float_data':
         args = (t, (d % 8).astype('float64'))          # small values: a class set derived from THIS batch would be the 9-class one
+    elif name == 'traces_not_numeric':
+        args = (np.full(t.shape, 'n/a'), d)
     elif name == 'traces_ndim':
         args = (np.stack([t, t], axis=2), d) if pos % 2 == 0 else (t[:, 0].copy(), d)
     elif name == 'traces_kernel_refused':
